@@ -105,6 +105,7 @@ def one(mode):
     for sym, k in OPS:
         for sk, shape in SHAPES: probes.append(("%s_%s" % (k, sk), shape % sym))
     probes.append(("shoup", "nfl::shoup(a * b, c)"))
+    probes.append(("cshoup_p", "nfl::compute_shoup(a)")); probes.append(("cshoup_e", "nfl::compute_shoup(a + b)"))
     tu = ("#include <nfl.hpp>\ntemplate <class X> struct probe_t {};\ntypedef nfl::poly<uint32_t, 16, 2> P;\nvoid force_instantiation(P& a, P& b, P& c, P& d, P& r) {\n" +
           "".join("  probe_t<decltype(%s)> probe_%s; (void)probe_%s;\n" % (e, n, n) for n, e in probes) +
           "  r = a - (b + c); r = (a + b) - c; r = (a + b) - (c - d); r = a - b; r = a * b; r = a + b; r = nfl::shoup(a * b, c);\n  bool t = (a == b) && (a != b) && ((a + b) == c) && (a != (b + c)) && ((a + b) == (c + d)); (void)t;\n}\n")
